@@ -10,7 +10,7 @@ Hashes are `Nat` (big-endian value of the 32 bytes). Transaction type codes and 
 codes are the numeric constants of `common/transaction.go`; they come in through `Codes`, which
 the driver fills from the regenerated facts.
 -/
-namespace Mixin.Consensus
+namespace Mixin.ConsensusChain
 
 structure Codes where
   tScript : Nat
@@ -264,4 +264,4 @@ def finalizeOp (c : Codes) (e : Env) (st : Store) (s : Snap) (self : Bool) (roun
         | .panic => none
       else some st1
 
-end Mixin.Consensus
+end Mixin.ConsensusChain
